@@ -238,7 +238,7 @@ def run(ctx):
         before_rows = {t: list(net[t].index) for t in ("gen", "bus", "line")}
         if final == "runpp_poisoned":
             poison(net)
-        opts = dict(calculate_voltage_angles=True)
+        opts = dict(calculate_voltage_angles=True, tolerance_mva=1e-10)      # both final runs: differences are compared to 1e-6 / 1e-5
 
         def go(n, fin):
             with core.quiet():
